@@ -125,6 +125,15 @@ def check(recipe, mode):
             raise Violation('random-sampling-unobserved-pixel', 'create_random_sampling drew a pixel with zero hits')
     else:
         theta, phi, psi = (np.asarray(recipe[k], dtype=np.float64) for k in ('theta', 'phi', 'psi'))
+        if recipe['seed'] % 3 == 0:
+            # a loop over observations: an earlier scan of the same length was projected and dropped just before this one
+            # is created (whatever the library remembers about it must not leak into the new scan)
+            from furax.projections import get_rotation_matrix
+
+            tmp = Sampling(jnp.asarray(theta[::-1] * 0.5, dtype=fdt), jnp.asarray(phi[::-1] + 1.0, dtype=fdt), jnp.asarray(psi * 0 + 0.3, dtype=fdt))
+            must_not_raise('earlier-scan', get_rotation_matrix, tmp)
+            del tmp
+            classes.append('earlier_scan_dropped')
         samp = Sampling(jnp.asarray(theta, dtype=fdt), jnp.asarray(phi, dtype=fdt), jnp.asarray(psi, dtype=fdt))
         # the model sees the angles as rounded to the working precision
         theta, phi, psi = (np.asarray(np.asarray(a, dtype=fdt), dtype=np.float64) for a in (theta, phi, psi))
